@@ -51,6 +51,27 @@ struct OriginDisplacementFitsIn;
 
 template <typename FromRep, typename ToRep>
 struct IntermediateRep;
+
+// Shift a position by the displacement between two origins.
+//
+// When the origins coincide, the displacement is `ZERO`, and we return the input untouched, rather
+// than computing `x + 0` (which, for floating point, turns `-0.0` into `+0.0`).
+template <typename U, typename R>
+constexpr Quantity<U, R> plus_displacement(Quantity<U, R> x, Zero) {
+    return x;
+}
+template <typename U, typename R, typename D>
+constexpr auto plus_displacement(Quantity<U, R> x, D displacement) {
+    return x + displacement;
+}
+template <typename U, typename R>
+constexpr Quantity<U, R> minus_displacement(Quantity<U, R> x, Zero) {
+    return x;
+}
+template <typename U, typename R, typename D>
+constexpr auto minus_displacement(Quantity<U, R> x, D displacement) {
+    return x - displacement;
+}
 }  // namespace detail
 
 // QuantityPoint implementation and API elaboration.
@@ -133,9 +154,10 @@ class QuantityPoint {
               typename = std::enable_if_t<IsUnit<AssociatedUnitForPointsT<NewUnit>>::value>>
     constexpr NewRep in(NewUnit u) const {
         using CalcRep = typename detail::IntermediateRep<Rep, NewRep>::type;
-        return (rep_cast<CalcRep>(x_) -
-                rep_cast<CalcRep>(
-                    OriginDisplacement<Unit, AssociatedUnitForPointsT<NewUnit>>::value()))
+        return detail::minus_displacement(
+                   rep_cast<CalcRep>(x_),
+                   rep_cast<CalcRep>(
+                       OriginDisplacement<Unit, AssociatedUnitForPointsT<NewUnit>>::value()))
             .template in<NewRep>(associated_unit_for_points(u));
     }
 
@@ -149,8 +171,10 @@ class QuantityPoint {
         // `rep_cast` is needed because if these are integral types, their difference might become a
         // different type due to integer promotion.
         return rep_cast<Rep>(
-                   x_ + rep_cast<Rep>(
-                            OriginDisplacement<AssociatedUnitForPointsT<NewUnit>, Unit>::value()))
+                   detail::plus_displacement(
+                       x_,
+                       rep_cast<Rep>(
+                           OriginDisplacement<AssociatedUnitForPointsT<NewUnit>, Unit>::value())))
             .in(associated_unit_for_points(u));
     }
 
